@@ -219,3 +219,44 @@ pub fn check_join(case: &str) -> Result<(), String> {
     let got = evaluate_join(&ins, &ss);
     match got { Atom(s) if s == exp => Ok(()), other => Err(format!("join gave {} but the documented text is {:?}", ser(&other), exp)) }
 }
+
+// ---------------- functor (C17) ----------------------------------------------------------------
+pub fn enum_functor(_s: u64) -> Vec<String> {
+    let mk = |pairs: &[(usize, Unifiable)]| { let mut ss: SS = vec![]; for (i, t) in pairs { while ss.len() <= *i { ss.push(None); } ss[*i] = Some(Rc::new(t.clone())); } ss };
+    let c = SComplex(vec![atom("noun_phrase"), atom("the"), atom("sky")]);
+    let mut v: Vec<(Vec<Unifiable>, SS, &str)> = vec![];
+    v.push((vec![c.clone(), atom("noun_phrase")], vec![], "yes"));
+    v.push((vec![c.clone(), atom("noun*")], vec![], "yes"));
+    v.push((vec![c.clone(), atom("verb*")], vec![], "no"));
+    v.push((vec![c.clone(), atom("noun*"), var(5, "$A")], vec![], "A=2"));
+    v.push((vec![c.clone(), var(1, "$P"), var(5, "$A")], mk(&[(1, atom("noun*"))]), "A=2"));          // pattern through a bound variable
+    v.push((vec![c.clone(), var(1, "$P")], mk(&[(1, atom("noun*"))]), "yes"));
+    v.push((vec![c.clone(), var(1, "$P")], mk(&[(1, atom("verb"))]), "no"));
+    v.push((vec![var(2, "$C"), var(1, "$F"), var(5, "$A")], mk(&[(2, c.clone())]), "A=2;F=noun_phrase"));
+    v.push((vec![c.clone(), atom("noun_phrase"), SInteger(2)], vec![], "yes"));
+    v.push((vec![c.clone(), atom("noun_phrase"), SInteger(3)], vec![], "no"));
+    v.push((vec![atom("x"), atom("x")], vec![], "no"));
+    v.iter().map(|(ts, ss, e)| format!("ss={};in={};exp={}", ser_ss(ss), ser_list(ts), e)).collect()
+}
+pub fn check_functor(case: &str) -> Result<(), String> {
+    let ss = Rc::new(de_ss(field(case, "ss")));
+    let ins = de_list(field(case, "in"));
+    let exp = field(case, "exp");
+    let bip = BuiltInPredicate::new("functor".to_string(), Some(ins));
+    let got = next_solution_functor(bip, &ss);
+    match (got, exp) {
+        (None, "no") => Ok(()),
+        (None, e) => Err(format!("functor failed, expected {}", e)),
+        (Some(_), "no") => Err("functor succeeded, expected failure".into()),
+        (Some(r), e) => {
+            for part in e.split(';') {
+                if part == "yes" { continue; }
+                let (v, val) = part.split_once('=').unwrap();
+                let id = if v == "A" { 5 } else { 1 };
+                let b = resolve(&var(id, "$V"), &r).map(|t| format!("{}", t)).unwrap_or("unbound".into());
+                if b != val { return Err(format!("${} is {} but should be {}", v, b, val)); }
+            }
+            Ok(())
+        }
+    }
+}
